@@ -16,14 +16,15 @@ from mc.run import Hang
 ID = "C29"
 LEVEL = "exploration"
 WATCHDOG_S = 30.0
+HANG_IS_VIOLATION = True  # a store that never returns (e.g. a lock that is not released between chunks) has not written the array
 NMAX1 = {"quick": 5, "thorough": 6}
 FILL = -1
 ASSUMPTIONS = [
     "targets are NumPy arrays pre-filled with -1 (sources hold distinct positive integers), so both a missing write and a write outside the region are visible",
     "regions are tuples of slices with non-negative start and positive step (the forms fuse_slice supports); negative starts/steps are enumerated too and must "
     "either be refused with NotImplementedError or be stored correctly",
-    "schedulers: sync, the real thread pool (3 workers), the threaded scheduler on a controlled executor in newest-first order; for two sources in one call every "
-    "completion order with <= 1 deviation from FIFO plus the newest-first order (workers touch nothing but their own chunk: DESIGN G3)",
+    "schedulers: sync, the real thread pool (3 workers), the threaded scheduler on a controlled executor in newest-first order; for two sources in one call FIFO and newest-first "
+    "order and, with the default lock, every completion order with <= 1 deviation from FIFO (workers touch nothing but their own chunk: DESIGN G3)",
     "to_npy_stack is called with the non-negative axes the docstring describes; files live in a tempfile.mkdtemp() directory that is removed after the case",
 ]
 LOCKS = (True, False, "lock", "serializable")
@@ -38,7 +39,7 @@ def RULE(tier):
         "lock in {True, False, threading.Lock, SerializableLock} x {compute, compute=False then compute, return_stored, return_stored+compute=False} x "
         "{sync, real threads, newest-first controlled executor}; Delayed targets. store, two sources in one call: all chunkings of lengths 1..3 x "
         "{two targets, two targets with regions, one shared target with separated / abutting regions, one region tuple for both} x lock x mode x "
-        "{sync + every completion order with <= 1 deviation + newest-first}. Oracle: target == -1-filled reference with reference[region] = source "
+        "{sync + FIFO and newest-first completion; for lock=True every completion order with <= 1 deviation}. Oracle: target == -1-filled reference with reference[region] = source "
         "(cells outside the region untouched), nothing written before the deferred compute, returned arrays equal the source with the source's chunks. "
         "to_npy_stack/from_npy_stack: every chunking x every axis x mmap_mode x dtype: values, dtype and the chunks along the stacking axis are reproduced. "
         "non-trivial = some source has >= 2 chunks."
@@ -289,8 +290,9 @@ def run_store(case, ctx):
         else:  # one region tuple applies to every source
             regions, tshapes, regions_arg = [(slice(1, 1 + n1),)] * 2, [(n1 + 2,), (n2 + 2,)], "tuple"
         nontrivial = len(ch1) >= 2 or len(ch2) >= 2
-        # the lock kind cannot interact with the completion order on the (serial) controlled executor: full order exploration for True/False
-        orders = ["sync", "explore"] if lock in (True, False) else ["sync", "ends"]
+        # the lock kind cannot interact with the completion order on the (serial) controlled executor: full order exploration for the
+        # default lock=True, the two extreme orders for the other lock kinds
+        orders = ["sync", "explore"] if lock is True else ["sync", "ends"]
         op = "store2"
 
     outcome = []
